@@ -213,8 +213,11 @@ def oracle_roundtrip(a, text):
     declast, todict = dc.mods()
     if has_init(a):
         return None
-    d1 = todict.to_dict(a)
-    rendered = a.gen_decl()
+    try:
+        d1 = todict.to_dict(a)
+        rendered = a.gen_decl()
+    except Exception as e:  # noqa
+        return "render-crash", "gen_decl/to_dict of the accepted declaration %r raises %s" % (text, type(e).__name__)
     try:
         b = declast.check_decl(rendered, namespace=dc.library())
     except RuntimeError as e:
